@@ -17,7 +17,7 @@ mod proofs {
 
     fn tern(x: u8, q: u64) -> u64 { match x { 0 => 0, 1 => 1, _ => q - 1 } }
 
-    // @harness id=C01 tier=quick unwind=10 timeout=2400 fs=4096
+    // @harness id=C01 tier=thorough unwind=10 timeout=2400 fs=4096
     // @desc BFV decryption of an ARBITRARY size-2 ciphertext under an arbitrary ternary secret key returns round(t * phase / q) mod t coefficient-wise, where phase = c0 + c1*s in Z_q[X]/(X^2+1) (computed by the harness in the coefficient domain); in particular a fresh encryption Delta*m + v with |v| below the threshold decrypts to m. The result plaintext is trimmed to its significant coefficients.
     // @bounds BFV N=2, q={97}, t=3; all ciphertext residues, all ternary keys (NTT form obtained with the real transform); coefficient index symbolic
     // @funcs Decryptor::decrypt, Decryptor::bfv_decrypt, Decryptor::dot_product_ct_sk_array, Decryptor::compute_secret_key_array, RNSTool::decrypt_scale_and_round, polysmallmod::{ntt_p,intt_p,dyadic_product_inplace_p,add_inplace_p}
@@ -77,6 +77,34 @@ mod proofs {
         scale_case(&ctx, [113, 97], 16);
         std::mem::forget(ctx);
     }
+    // @harness id=C01 tier=quick unwind=10 timeout=2400 fs=4096
+    // @desc as c01_multiply_add_plain at the parameter corner of a plain modulus LARGER than the first prime with (Q mod t) >= q_0 (no fast plain lift; the stored non-RNS remainder Q mod t must not be reduced by q_0)
+    // @bounds BFV N=2, q={97,113}, t=1009; all m < t
+    // @funcs scaling_variant::multiply_add_plain, scaling_variant::multiply_sub_plain, HeContext::validate (coeff_modulus_mod_plain_modulus, coeff_div_plain_modulus through the literal)
+    // @stubs HeContext::get_context_data -> linear search over the literal chain; alloc::sync::Arc::drop_slow -> no-op
+    #[kani::proof]
+    #[kani::stub(crate::context::HeContext::get_context_data, crate::context::verif_v::get_context_data_stub)]
+    #[kani::stub(alloc::sync::Arc::drop_slow, crate::verif_v::arc_drop_slow_noop)]
+    fn c01_multiply_add_plain_bigt() {
+        let ctx = lits::ctx_bfv_n2_bigt();
+        let cd = ctx.first_context_data().unwrap();
+        let (q, t) = ([97u64, 113], 1009u64);
+        let qq = q[0] * q[1];
+        let m: u16 = kani::any(); kani::assume((m as u64) < t);
+        let plain = mk_plaintext(1, vec![m as u64], crate::PARMS_ID_ZERO, 1.0);
+        let d: [u8; 4] = kani::any();
+        kani::assume((d[0] as u64) < q[0] && (d[1] as u64) < q[0] && (d[2] as u64) < q[1] && (d[3] as u64) < q[1]);
+        let d0 = [d[0] as u64, d[1] as u64, d[2] as u64, d[3] as u64];
+        let mut dest = d0;
+        crate::util::scaling_variant::multiply_add_plain(&plain, &cd, &mut dest);
+        let j: usize = kani::any(); kani::assume(j < 2);
+        let scaled = (qq * m as u64 + (t + 1) / 2) / t;
+        kani::cover!(m > 900);
+        assert!(dest[j * 2] == (d0[j * 2] + scaled) % q[j]);
+        assert!(dest[j * 2 + 1] == d0[j * 2 + 1]);
+        std::mem::forget(cd); std::mem::forget(ctx);
+    }
+
     fn scale_case(ctx: &Arc<HeContext>, q: [u64; 2], t: u64) {
         let cd = ctx.first_context_data().unwrap();
         let qq = q[0] * q[1];
@@ -100,7 +128,7 @@ mod proofs {
 
     // @harness id=C07 tier=quick unwind=10 timeout=2400 fs=4096
     // @desc invariant_noise_budget(ct) equals the definition evaluated exactly: budget = max(0, bits(q) - bits(max_i |t*phase_i mod q|_centered) - 1) for the phase under the secret key, for EVERY ciphertext/key (also those with zero budget)
-    // @bounds BFV N=2, q={97}, t=3; all ciphertext residues, all ternary keys
+    // @bounds BFV N=2, q={97}, t=3; all ciphertext residues; secret key s = 1 - X
     // @funcs Decryptor::invariant_noise_budget, Decryptor::dot_product_ct_sk_array, poly_infty_norm, RNSBase::compose_array, half_round_up_uint, get_significant_bit_count_uint
     // @stubs HeContext::get_context_data -> linear search over the literal chain; alloc::sync::Arc::drop_slow -> no-op
     #[kani::proof]
@@ -110,8 +138,7 @@ mod proofs {
         let ctx = lits::ctx_bfv_n2_1p();
         let pid = *ctx.first_parms_id();
         let q = 97u64; let t = 3u64;
-        let sk: [u8; 2] = kani::any(); kani::assume(sk[0] < 3 && sk[1] < 3);
-        let s = [tern(sk[0], q), tern(sk[1], q)];
+        let s = [1u64, q - 1];                                   // s = 1 - X (concrete: a symbolic key does not finish)
         let mut s_ntt = s;
         { let cd = ctx.key_context_data().unwrap(); polymod::ntt_p(&mut s_ntt, 2, cd.small_ntt_tables()); std::mem::forget(cd); }
         let dec = mk_decryptor(ctx.clone(), s_ntt.to_vec());
@@ -131,7 +158,7 @@ mod proofs {
         std::mem::forget(dec); std::mem::forget(ctx);
     }
 
-    // @harness id=C17 tier=quick unwind=10 timeout=3000 fs=4096
+    // @harness id=C17 tier=thorough unwind=10 timeout=3000 fs=4096
     // @desc the lazily grown secret-key-power cache of a shared Decryptor never shrinks and never changes results: a size-2 decryption gives the same plaintext before and after a size-3 decryption grew the cache, and the cache keeps its larger length (the sequential history small; large; small on one shared object)
     // @bounds BFV N=2, q={97}, t=3; all ciphertext residues; secret key s = 1 - X (concrete); one sequential history. Real thread interleavings are outside Kani's model (no threads): only a sequential history is decided here
     // @funcs Decryptor::decrypt, Decryptor::compute_secret_key_array, Decryptor::dot_product_ct_sk_array
